@@ -583,7 +583,7 @@ impl World {
         if n.never_pct > 0 && self.rng.random_range(0..100) < n.never_pct {
             // a sequence number inside the window but not (yet) sent in this round
             let r = &self.sends[k];
-            let ahead = self.rng.random_range(2..400u16);
+            let ahead = self.rng.random_range(1..400u16);
             let never = r.seq.wrapping_add(ahead);
             let mut q = tpl.clone();
             if self.set_sequence(&mut q, never) {
@@ -682,14 +682,23 @@ impl World {
                 let other = if self.sc.noise.foreign_zero_id {
                     0
                 } else {
-                    // the identifier the CLI would give the next tracer (pid + 1)
-                    self.sc.trace_id.wrapping_add(1)
+                    // the identifier the CLI would give the next tracer (pid + 1); the property speaks of
+                    // non-zero identifiers (zero is accepted by every tracer: F7, see DESIGN.md)
+                    if self.sc.trace_id == u16::MAX { 1 } else { self.sc.trace_id + 1 }
                 };
                 q[o + 4..o + 6].copy_from_slice(&other.to_be_bytes());
                 true
             }
             "udp" | "tcp" => {
-                match self.rng.random_range(0..3) {
+                match self.rng.random_range(0..4) {
+                    3 => {
+                        // another protocol
+                        if self.sc.fam == 4 {
+                            q[9] = if q[9] == wire::PROTO_UDP { wire::PROTO_TCP } else { wire::PROTO_UDP };
+                        } else {
+                            q[6] = if q[6] == wire::PROTO_UDP { wire::PROTO_TCP } else { wire::PROTO_UDP };
+                        }
+                    }
                     0 => {
                         // another destination
                         if self.sc.fam == 4 {
@@ -761,6 +770,18 @@ impl World {
             return Err(IoError::Other(io_err(&kind), op));
         }
         let now = self.now();
+        // a "never-sent" sequence that has been sent in the meantime would be a forged answer to a real
+        // probe (none of the property's classes, and indistinguishable from a genuine one): drop it
+        while let Some(d) = self.queue.first() {
+            let stale = matches!(d.origin, Origin::Noise("never"))
+                && d.t <= now
+                && self.sends.iter().rev().take(600).any(|r| r.round == self.round && r.seq == d.seq);
+            if stale {
+                self.queue.remove(0);
+            } else {
+                break;
+            }
+        }
         if self.queue.first().is_none_or(|d| d.t > now) {
             return Err(IoError::Other(io_err("wouldblock"), op));
         }
